@@ -10,8 +10,9 @@
    No hypotheses.  A source edit that changes one of the functions changes the generated term and this theorem stops compiling.
    Nothing but the statement closed by `exact`, followed by Print Assumptions. *)
 From Coq Require Import String.
-From NV Require Import Base.Tac Base.PyVal Base.PyStr Model.IpText Model.FbSocket Model.SrcPrelude Model.SrcPreludeText
-  Gen.pysrc_fbsocket_gen Proofs.GenOk_Src_C01.
+From NV Require Import Base.Tac Base.PyVal Base.PyStr Model.IpText Model.FbSocket Model.AddrText Model.SrcPrelude Model.SrcPreludeText
+  Gen.pysrc_fbsocket_gen Gen.pysrc_ipv4_gen Gen.pysrc_ipv6_gen Proofs.GenOk_Src_C01 Proofs.GenOk_Src_C01_text.
+From NV Require Model.NetText.
 Import ListNotations.
 Close Scope string_scope.
 Open Scope Z_scope.
@@ -25,6 +26,22 @@ Theorem C01_source_tie :
 Proof. exact C01_tie_fb1_ok. Qed.
 Print Assumptions C01_source_tie.
 
+(* The text functions of netaddr/strategy/ipv4.py and ipv6.py (coq/Gen/pysrc_ipv4_gen.v, pysrc_ipv6_gen.v) against Model/AddrText.v
+   (valid_str / str_to_int / int_to_str dispatched on the module version 4 | 6) and Model/NetText.v (expand_partial_address, used by
+   C03).  The back-end `be` (platform socket functions = the oracles Std4 / Std6, or netaddr.fbsocket = Model/FbSocket.v) is a
+   parameter of both sides: the module-level names _inet_aton / _inet_pton / _inet_ntop are read as the prelude symbols
+   py_inet_aton / py_inet_pton4 / py_inet_pton6 / py_inet_ntop6 (Model/SrcPreludeText.v).  INET_PTON / ZEROFILL are read from
+   netaddr/core.py.  No hypotheses. *)
+Theorem C01_source_tie_text :
+  (forall be addr flags, src_ipv4_valid_str be addr flags = valid_str be 4 addr flags) /\
+  (forall be addr flags, src_ipv4_str_to_int be addr flags = str_to_int be 4 addr flags) /\
+  (forall be v d, src_ipv4_int_to_str v tt = int_to_str be 4 v d) /\
+  (forall s, src_ipv4_expand_partial_address s = NetText.expand_partial_address s) /\
+  (forall be addr flags, src_ipv6_valid_str be addr flags = valid_str be 6 addr flags) /\
+  (forall be addr flags, src_ipv6_str_to_int be addr flags = str_to_int be 6 addr flags).
+Proof. exact C01_tie_text1_ok. Qed.
+Print Assumptions C01_source_tie_text.
+
 (* the generated definitions compute *)
 Example C01_src_nonvacuous :
   src_fbsocket_inet_ntoa [192; 168; 0; 1] = Ok "192.168.0.1"%string /\ src_fbsocket_inet_ntoa [1; 2; 3] = Raise ValueError /\
@@ -35,5 +52,9 @@ Example C01_src_nonvacuous :
   src_fbsocket_inet_pton 10 "::ffff:1.2.3.4"%string = Ok [0; 0; 0; 0; 0; 0; 0; 0; 0; 0; 255; 255; 1; 2; 3; 4] /\
   src_fbsocket_inet_pton 10 "1:2:3:4:5:6:7:8"%string = Ok [0; 1; 0; 2; 0; 3; 0; 4; 0; 5; 0; 6; 0; 7; 0; 8] /\
   src_fbsocket_inet_pton 10 "1::2::3"%string = Raise ValueError /\ src_fbsocket_inet_pton 10 "::+1"%string = Raise ValueError /\
-  src_fbsocket_inet_pton 3 "::"%string = Raise ValueError.
+  src_fbsocket_inet_pton 3 "::"%string = Raise ValueError /\
+  src_ipv4_str_to_int Fallback "010.1.2.3"%string 3 = Ok 167838211 /\ src_ipv4_str_to_int Platform "1.2"%string 0 = Ok 16777218 /\
+  src_ipv4_str_to_int Platform "1.2"%string 1 = Raise AddrFormatError /\ src_ipv4_valid_str Fallback "1.2.3.256"%string 1 = Ok false /\
+  src_ipv4_expand_partial_address "10.1"%string = Ok "10.1.0.0"%string /\ src_ipv4_expand_partial_address "::1"%string = Raise AddrFormatError /\
+  src_ipv6_str_to_int Fallback "::ffff:1.2.3.4"%string 0 = Ok 281470698652420 /\ src_ipv6_valid_str Platform "1::2::3"%string 0 = Ok false.
 Proof. repeat split; vm_compute; reflexivity. Qed.
